@@ -133,7 +133,30 @@ def run(ctx, ck):
     ck.rule('R-EXH.pulse-iter', 'Connected_Geobj.pulse_iter yields (end_segs[idx], sign) for every entry')
     ck.rule('R-EXH.rows', 'one interior row per own pulse, 1-based number')
 
-    f, paths, found = check_junction_accumulate(ctx, ck)
+    # a value the current table takes from a cache kept on the model must not outlive the solution it was computed
+    # from (rule shared with C14 / C19; only caches in the closure of the current report)
+    ck.rule('R-CACHE.invalidate', 'a cache the current table reads is dropped by every function that assigns the state it was computed from')
+    from .C14 import run_cache_rule
+    from ..cache import find_memo_sites
+    cur_f = m.func(CUR)
+    cclosure = ctx.program.closure([cur_f], edge_filter=lambda e: e.kind in ('call', 'getter'))
+    ckeys = {s_.key for s_ in find_memo_sites(m, ctx) if s_.func.qual in cclosure and s_.owner == 'self' and
+             s_.kind in ('attr-none', 'getattr-none')}
+    stale = False
+    if ckeys:
+        n0 = len(ck.obs)
+        run_cache_rule(ctx, ck, only=ckeys)
+        stale = any(not o.ok for o in ck.obs[n0:] if o.rule == 'R-CACHE.invalidate')
+    ck.info('current_report_caches', sorted(ckeys))
+    try:
+        f, paths, found = check_junction_accumulate(ctx, ck)
+    except AnalysisError as e_:
+        if not stale:
+            raise
+        # the junction rows are read through the very cache reported above: that report stands, the rows behind
+        # the cache are not analysed further
+        ck.note('junction rows not analysed behind the stale cache: %s' % e_)
+        return
     ck.floor('paths reporting one object', len(paths), 9)
     # the end rows on every path are the ones the end conditions call for:
     #   grounded end: nothing;  free end (no connection): the E row of zeros;  junction: the J row of conn[K];
